@@ -28,6 +28,73 @@ pub fn replay_fresh(path: &str) -> Option<bool> {
     Some(out.status.code() == Some(1))
 }
 
+fn child(cmd: &str, tier: Tier, only: Option<usize>) -> std::io::Result<std::process::Child> {
+    let exe = std::env::current_exe()?;
+    let mut c = std::process::Command::new(exe);
+    c.arg(cmd).arg("--tier").arg(tier.name()).env("HESIM_CHILD", "1");
+    if let Some(i) = only {
+        c.env("HESIM_ONLY_RUN", i.to_string());
+    }
+    c.spawn()
+}
+
+fn normal(code: Option<i32>) -> bool {
+    matches!(code, Some(0) | Some(1) | Some(2))
+}
+
+fn supervise(cmd: &str, tier: Tier, seed: u64) -> i32 {
+    let mut ch = match child(cmd, tier, None) {
+        Ok(c) => c,
+        Err(e) => {
+            eprintln!("harness error: cannot start the batch process: {}", e);
+            return 2;
+        }
+    };
+    let pid = ch.id();
+    let status = ch.wait().ok();
+    let code = status.and_then(|s| s.code());
+    if normal(code) {
+        let _ = std::fs::remove_dir_all(driver::inflight_dir(pid));
+        return code.unwrap();
+    }
+    eprintln!("the batch process terminated abnormally ({:?}); isolating the runs that were in flight", status);
+    let dir = driver::inflight_dir(pid);
+    let mut inflight: Vec<usize> = std::fs::read_dir(&dir)
+        .map(|d| d.filter_map(|e| e.ok()).filter_map(|e| std::fs::read_to_string(e.path()).ok()).filter_map(|t| t.trim().parse().ok()).collect())
+        .unwrap_or_default();
+    inflight.sort();
+    inflight.dedup();
+    let _ = std::fs::remove_dir_all(&dir);
+    let mut found = false;
+    for i in inflight {
+        let Ok(mut c) = child(cmd, tier, Some(i)) else { continue };
+        let cpid = c.id();
+        let st = c.wait().ok();
+        let cc = st.and_then(|s| s.code());
+        let _ = std::fs::remove_dir_all(driver::inflight_dir(cpid));
+        if !normal(cc) {
+            let v = driver::Violation {
+                key: "process-abort".into(),
+                class: "process-abort".into(),
+                detail: format!("run {} of the {} tier (VERIF_SEED={}) terminates the whole process ({:?}): an abort that cannot be caught, e.g. an allocation request of absurd size or a stack overflow while handling this case", i, tier.name(), seed, st),
+                replay: serde_json::json!({"abort_run": i, "tier": tier.name()}),
+            };
+            let path = driver::write_replay(cmd, seed, i, &v);
+            println!("VIOLATION property={} replay={}", cmd, path);
+            println!("  key={} class={} {}", v.key, v.class, v.detail);
+            found = true;
+        } else if cc == Some(1) {
+            found = true; // the isolated run reported its own violation
+        }
+    }
+    if found {
+        1
+    } else {
+        eprintln!("harness error: the batch process died but no single in-flight run reproduces it");
+        2
+    }
+}
+
 fn seed_from_env() -> u64 {
     match std::env::var("VERIF_SEED") {
         Ok(s) if !s.trim().is_empty() => s.trim().parse::<u64>().unwrap_or_else(|_| {
@@ -99,6 +166,18 @@ fn main() {
             eprintln!("replay file is for property {:?}, not {}", doc["property"], cmd);
             std::process::exit(2);
         }
+        if let Some(i) = doc["replay"]["abort_run"].as_u64() {
+            let t = if doc["replay"]["tier"].as_str() == Some("thorough") { Tier::Thorough } else { Tier::Quick };
+            std::env::set_var("VERIF_SEED", doc["verif_seed"].as_u64().unwrap_or(seed).to_string());
+            let st = child(cmd, t, Some(i as usize)).and_then(|mut c| c.wait()).ok();
+            let cc = st.and_then(|s| s.code());
+            if !normal(cc) {
+                println!("VIOLATION property={} replay={}", cmd, path);
+                println!("  class=process-abort the run terminates the whole process again ({:?})", st);
+                std::process::exit(1);
+            }
+            std::process::exit(cc.unwrap_or(2));
+        }
         let code = match cmd {
             "C14" => c14::replay(&doc),
             "C15" => c15::replay(&doc),
@@ -111,6 +190,13 @@ fn main() {
             }
         };
         std::process::exit(code);
+    }
+    // Supervisor: the batch itself runs in a child process. If the child dies abnormally (an
+    // allocation of 2^61 bytes after a misframed stream aborts the process, it does not unwind), the
+    // runs that were in flight are re-executed one by one in further children; the one that kills
+    // its process again is reported as a violation with a replay file.
+    if std::env::var("HESIM_CHILD").is_err() && matches!(cmd, "C14" | "C15" | "C16" | "C17" | "C18") {
+        std::process::exit(supervise(cmd, tier, seed));
     }
     println!("VERIF_SEED={} tier={} workers={}", seed, tier.name(), driver::workers());
     let code = match cmd {
